@@ -382,8 +382,8 @@ impl FieldType {
         r is Ok ==> (final(parser).pos() == final(parser).len() || r->Ok_0@.len() == 4),
 //@loop 1
             invariant_except_break
-                [[L: loop/one_declaration_per_round]]
-                declarations@.len() == i,
+                [[L: loop/one_declaration_per_round_until_end_of_input]]
+                declarations@.len() == i || parser.pos() == parser.len(),
             invariant
                 [[L: loop/cursor]]
                 parser.wf(), parser.len() == old(parser).len(),
